@@ -79,7 +79,12 @@ func RegisterInternalMessage[T any](messageName string, reader InternalMessageRe
 }
 
 func QueryMessageDesc(message any) *MessageDesc {
-	tof := reflect.TypeOf(message).Elem()
+	// 内部消息均以指针类型注册；nil 或非指针消息一律视为外部消息，避免对其取 Elem 触发 panic
+	typ := reflect.TypeOf(message)
+	if typ == nil || typ.Kind() != reflect.Ptr {
+		return outsideMessageDesc
+	}
+	tof := typ.Elem()
 	desc, ok := internalMessageTypeOfDesc[tof]
 	if ok {
 		return desc
